@@ -1,6 +1,9 @@
 import BigDec.Driver.C01
 import BigDec.Driver.C06
 import BigDec.Driver.C07
+import BigDec.Driver.C09
+import BigDec.Driver.C15
+import BigDec.Driver.C19
 import BigDec.Driver.C18
 /-! Line-protocol driver: one case per input line
       `<prop> \t <op> \t <arg>… \t => \t <implementation output>`
@@ -12,6 +15,9 @@ def dispatch (prop op : String) (args : List String) (impl : String) : Verdict :
   | "C01" => Driver.C01.handle op args impl
   | "C06" => Driver.C06.handle op args impl
   | "C07" => Driver.C07.handle op args impl
+  | "C09" => Driver.C09.handle op args impl
+  | "C15" => Driver.C15.handle op args impl
+  | "C19" => Driver.C19.handle op args impl
   | "C18" => Driver.C18.handle op args impl
   | _ => badInput ("unknown property " ++ prop)
 
